@@ -29,12 +29,41 @@ def _unwrap_enumerate(it):
 class RowScan:
     def __init__(self, fn):
         self.fn = fn
+        self.cont_names = self._container_aliases()
         self.row_names = self._row_names()
+
+    def _container_aliases(self):
+        """local names bound (only) to a row container: `faces = self.mesh.faces` / `vertices, edges, faces = m.vertices, m.edges, m.faces`"""
+        good, bad = set(), set()
+        for n in au.walk(self.fn):
+            if isinstance(n, ast.Assign):
+                for t in n.targets:
+                    pairs = []
+                    if isinstance(t, ast.Name):
+                        pairs = [(t, n.value)]
+                    elif isinstance(t, (ast.Tuple, ast.List)) and isinstance(n.value, (ast.Tuple, ast.List)) and len(t.elts) == len(n.value.elts):
+                        pairs = list(zip(t.elts, n.value.elts))
+                    else:
+                        bad.update(au.assigned_names(t))
+                    for a, v in pairs:
+                        if isinstance(a, ast.Name):
+                            (good if is_container(v) else bad).add(a.id)
+                        else:
+                            bad.update(au.assigned_names(a))
+            elif isinstance(n, (ast.AugAssign, ast.AnnAssign)):
+                if not (isinstance(n, ast.AugAssign) and isinstance(n.target, ast.Name) and n.target.id in good):
+                    bad.update(au.assigned_names(n.target))
+            elif isinstance(n, (ast.For, ast.comprehension)):
+                bad.update(au.assigned_names(n.target))
+        return good - bad - set(au.params(self.fn))
+
+    def is_cont(self, e):
+        return is_container(e) or (isinstance(e, ast.Name) and e.id in self.cont_names)
 
     # -- which expressions are rows
     def is_row(self, e):
         if isinstance(e, ast.Subscript):
-            if is_container(e.value) and not isinstance(e.slice, (ast.Slice, ast.Tuple)):
+            if self.is_cont(e.value) and not isinstance(e.slice, (ast.Slice, ast.Tuple)):
                 return True          # X.faces[i]
             if isinstance(e.slice, ast.Slice) and self.is_row(e.value):
                 return True          # row[a:b]
@@ -60,7 +89,7 @@ class RowScan:
                         else:
                             bad.update(au.assigned_names(tgt))
                             continue
-                    if is_container(it) and isinstance(tgt, ast.Name):
+                    if self.is_cont(it) and isinstance(tgt, ast.Name):
                         cand.add(tgt.id)
                     else:
                         bad.update(au.assigned_names(tgt))
@@ -91,7 +120,7 @@ class RowScan:
                 if self.is_row(n.target):
                     out.append((n, f"`{au.src(n)}`: augmented `{_op(n.op)}=` on an index row",
                                 "a tuple row is concatenated (the element grows), a numpy row is incremented in place"))
-                elif self.is_row(n.value) and not (isinstance(n.target, ast.Name) or is_container(n.target)):
+                elif self.is_row(n.value) and not (isinstance(n.target, ast.Name) or self.is_cont(n.target)):
                     pass
             elif isinstance(n, ast.Compare) and len(n.ops) == 1 and isinstance(n.ops[0], (ast.Eq, ast.NotEq)):
                 a, b = n.left, n.comparators[0]
@@ -150,8 +179,9 @@ def check_module(ctx, rule, modname, min_uses=0):
             s = ctx.site(mod.name, fn, node)
             ctx.fail(rule, s, construct, "behaviour depends on whether index rows are lists, tuples or numpy rows: " + why)
     if uses < min_uses:
-        from ..core import AnalysisError
-        raise AnalysisError(f"{rule}: only {uses} row uses found in {modname} (expected >= {min_uses})")
+        # the matcher lost its sites (rows renamed / moved into helpers): neither a pass nor a violation
+        ctx.undecided(rule, ctx.site(mod.name, "<module>"), f"index rows: fewer than {min_uses} uses found in {modname}",
+                      f"{uses} row use(s) found: the row matcher may have lost its sites")
     return uses
 
 
